@@ -226,6 +226,60 @@ def check(run, replay=None):
                     "; ".join(map(q_of_float, flo))),
                     {"check": "reported zeros", "spec": spec, "time": t, "open": dict(zip(link_names, st)),
                      "demand": dict(zip(node_names, dem)), "pressure": dict(zip(node_names, pre)), "flow": dict(zip(link_names, flo))})
+        # ---- a run paused by its own simulator object, a link removed or added during the pause, continued by the SAME object ----
+        if rng.random() < 0.5 and len(spec["pipes"]) >= 2:
+            try:
+                wnp = netgen.build(spec, wntr)
+                hs_ = spec["options"]["hydraulic_timestep"]
+                T_ = spec["options"]["duration"]
+                T1 = hs_ * max(1, (T_ // hs_) // 2)
+                wnp.options.time.duration = T1
+                simp = wntr.sim.WNTRSimulator(wnp)
+                import warnings as _w
+                with _w.catch_warnings():
+                    _w.simplefilter("ignore")
+                    simp.run_sim()
+                    ctl_links = {c_["link"] for c_ in spec["controls"]} | {a_ for r_ in spec["rules"] for a_ in [r_.get("link")] if a_}
+                    if rng.random() < 0.5:
+                        victims = [p_["name"] for p_ in spec["pipes"] if p_["name"] not in ctl_links and not wnp.get_link(p_["name"])._is_isolated]
+                        edit = ("remove", rng.choice(victims)) if victims else None
+                        if edit:
+                            try:
+                                wnp.remove_link(edit[1])
+                            except Exception:
+                                edit = None
+                    else:
+                        a_, b_ = rng.sample(node_names, 2)
+                        wnp.add_pipe("PXNEW", a_, b_, length=120.0, diameter=0.25, roughness=110.0)
+                        edit = ("add", "PXNEW", a_, b_)
+                    if edit:
+                        ln2 = wnp.pipe_name_list + wnp.head_pump_name_list + wnp.power_pump_name_list + wnp.valve_name_list
+                        snaps2 = []
+
+                        def cb2(wn_, m):
+                            st_ = [wn_.get_link(l).status != wntr.network.LinkStatus.Closed for l in ln2]
+                            snaps2.append((int(wn_.sim_time), tuple(st_), tuple(nidx[n] for n, j in wn_.junctions() if j._is_isolated),
+                                           tuple(i for i, l in enumerate(ln2) if wn_.get_link(l)._is_isolated)))
+                        wnp.options.time.duration = T_
+                        with simrun.Trace(wntr, cb2):
+                            try:
+                                simp.run_sim()
+                            except Exception:
+                                pass
+                        run.count("continued by the same simulator after a link was " + ("removed" if edit[0] == "remove" else "added"))
+                        seen2 = set()
+                        for (t, st, ij, il) in snaps2:
+                            if (st, ij, il) in seen2:
+                                continue
+                            seen2.add((st, ij, il))
+                            lc = "[" + "; ".join("(%d%%nat, %d%%nat, %s)" % (nidx[wnp.get_link(l).start_node_name], nidx[wnp.get_link(l).end_node_name],
+                                                                              "true" if o else "false") for l, o in zip(ln2, st)) + "]"
+                            add_case("iso_ok %s %s %s %s [%s] [%s] = true" % (lc, nodes_c, src_c, juncs_c, "; ".join("%d%%nat" % i for i in ij), "; ".join("%d%%nat" % i for i in il)),
+                                     {"check": "isolated flags", "spec": spec, "time": t, "edit_during_the_pause": list(edit), "paused_at": T1, "open": dict(zip(ln2, st)),
+                                      "impl_isolated_junctions": [node_names[i] for i in ij], "impl_isolated_links": [ln2[i] for i in il]})
+                            run.case({"net": k, "st": st, "edited": True}, len(ij) > 0, None)
+            except Exception as e_:   # noqa
+                run.count("pause-edit scenario failed: " + type(e_).__name__)
         if k < 1:
             run.samples.append({"spec": spec})
     res_, errors = common.run_prop_cases("C09", HEADER, TACTIC, cases, shard=200)
